@@ -399,6 +399,13 @@ def main():
                           "exc": C._typename(type(e)), "variant": variant}))
         sys.stdout.flush()
         return 3
+    # the peer variant: another hash seed, the reverse import order, the other -O level
+    if not os.environ.get("SIM_NO_PEER"):
+        server.peer_variant = {
+            "hashseed": (int(variant.get("hashseed") or 0) * 31 + 977) % 4294967295 or 5,
+            "import_order": list(reversed(order)),
+            "flags": [] if (variant.get("flags") or []) else
+            (["-O"] if sum(map(ord, variant.get("name", "w"))) % 2 else ["-OO"])}
     plan = build_plan(tier, job.get("nruns"), seed)
     extra = job.get("extra_plan") or {}
 
@@ -468,7 +475,8 @@ def main():
             mm = server.h9_mismatches.pop(0)
             del server.h9_mismatches[:]
             doc = {"format": 1, "property": "C20", "scenario": "golden-variants",
-                   "server": dict(variant), "request": mm["req"],
+                   "server": dict(variant), "peer_variant": server.peer_variant,
+                   "request": mm["req"],
                    "violation": {"invariant": "H9", "kind": "process-lifetime",
                                  "function": ".".join(str(x) for x in mm["req"]["fn"]),
                                  "task": None, "op": None,
@@ -497,6 +505,8 @@ def main():
         except Exception:
             print(json.dumps({"type": "rerun", "index": index, "records_digest": None}))
         sys.stdout.flush()
+    if server.peer is not None:
+        server.peer.close()
     print(json.dumps({"type": "bye", "server_stats": server.stats,
                       "wall_s": round(time.monotonic() - t_start, 2)}))
     sys.stdout.flush()
